@@ -80,9 +80,9 @@ def Mem.read [Inhabited α] (m : Mem α) (s : Slice) (i : Int) : Except Panic α
 def Mem.write (m : Mem α) (s : Slice) (i : Int) (v : α) : Except Panic (Mem α) :=
   if 0 ≤ i ∧ i < s.len then .ok (m.setArr s.arr ((m.arr s.arr).set (s.off + i.toNat) v)) else .error .rt
 
-/-- `make([]V, n)` -/
+/-- `make([]V, n)`: a length outside the range of `int` is a Go runtime error ("makeslice: len out of range") -/
 def Mem.make [Inhabited α] (m : Mem α) (n : Int) : Except Panic (Mem α × Slice) :=
-  if 0 ≤ n then .ok (m ++ [List.replicate n.toNat default], ⟨m.length, 0, n.toNat, n.toNat⟩) else .error .rt
+  if 0 ≤ n ∧ n < 9223372036854775808 then .ok (m ++ [List.replicate n.toNat default], ⟨m.length, 0, n.toNat, n.toNat⟩) else .error .rt
 
 /-- `s[lo:hi]` -/
 def Slice.sub (s : Slice) (lo hi : Int) : Except Panic Slice :=
